@@ -126,6 +126,27 @@ func (a Alphabet) Bytes(lo, hi int) *rapid.Generator[B] {
 	})
 }
 
+// Field draws a field over the alphabet whose length is mostly 0..small, sometimes up to
+// mid and rarely up to big (long names and fields must not be a blind spot).
+func (a Alphabet) Field(small, mid, big int) *rapid.Generator[B] {
+	short, middle := a.Bytes(0, small), a.Bytes(small, mid)
+	return rapid.Custom(func(t *rapid.T) B {
+		switch rapid.IntRange(0, 19).Draw(t, "fieldsize") {
+		case 0:
+			return middle.Draw(t, "mid")
+		case 1:
+			n := rapid.IntRange(mid, big).Draw(t, "biglen")
+			unit := a.Bytes(1, 9).Draw(t, "unit")
+			out := make([]byte, 0, n+9)
+			for len(out) < n {
+				out = append(out, unit...)
+			}
+			return B(out[:n])
+		}
+		return short.Draw(t, "short")
+	})
+}
+
 // Word draws a short printable word over letters/digits (uncontroversial content).
 func Word(lo, hi int) *rapid.Generator[B] {
 	const letters = "abcdefghijklmnopqrstuvwxyzABCDEFGHIJKLMNOPQRSTUVWXYZ0123456789"
